@@ -61,8 +61,8 @@ def is_scalar(t):
 
 @register_qbytestensor_op([torch.ops.aten._to_copy, torch.ops.aten.to])
 def _to_copy(op, t, dtype=None, **kwargs):
-    if dtype is not None and not dtype.is_floating_point:
-        # The scale cannot be converted to an integer type: convert the dequantized values
+    if dtype is not None and (not dtype.is_floating_point or dtype.itemsize == 1):
+        # The scale cannot be converted to an integer or 8-bit float type: convert the dequantized values
         return op(t.dequantize(), dtype=dtype, **kwargs)
     # For data, ignore dtype and use the inner type instead
     out_data = op(t._data, dtype=t._data.dtype, **kwargs)
